@@ -146,6 +146,12 @@ impl Script {
                         _ => cursor.read_u32::<LittleEndian>()? as usize,
                     };
 
+                    // Never allocate more than the input can still provide
+                    let remaining = (bytes.len() as u64).saturating_sub(cursor.position());
+                    if data_length as u64 > remaining {
+                        return Err(BSVErrors::DeserialiseScript(format!("{} declares {} bytes of data but only {} remain", v, data_length, remaining)));
+                    }
+
                     let mut data = vec![0; data_length];
                     if let Err(e) = cursor.read(&mut data) {
                         return Err(BSVErrors::DeserialiseScript(format!("Failed to read OP_PUSHDATA data {}", e)));
